@@ -22,6 +22,7 @@ import (
 	"syscall"
 	"time"
 
+	"github.com/codenotary/immudb/embedded/ahtree"
 	"github.com/codenotary/immudb/embedded/logger"
 	"github.com/codenotary/immudb/embedded/store"
 
@@ -375,6 +376,7 @@ type imgResult struct {
 }
 
 type d2Result struct {
+	Life2    bool // the recovered store went on working before the second crash
 	P2, Len2 int
 	Model    int
 	Info     fsjournal.Info
@@ -442,7 +444,17 @@ func crashDuringRecovery(l *loaded, ic imgCase, scratch string, i int) (out []d2
 		}
 	}
 	j := hook.NewJournal()
-	hook.Install(&hook.Config{Seed: int64(ic.Seed), Journal: j})
+	hook.Install(&hook.Config{Seed: int64(ic.Seed), Journal: j, OnNote: func(site string, a, b uint64, hh [32]byte) {
+		if site == "store.issued" {
+			j.Mark("issued", a, hh)
+		}
+	}})
+	// second life (every other deep image, not with external commit allowance): after the recovery the store
+	// goes on working - commits that rewrite existing keys, index flushes that are not fsynced - before the
+	// second crash. The files then hold what a recovery leaves behind (offsets moved back over bytes that stay
+	// in the file), which no trace starting from an empty directory produces.
+	life2 := !l.tf.Cfg.ExtAllow && ic.P%2 == 0
+	led2 := ledger.New()
 	func() {
 		defer hook.Uninstall()
 		st, err := store.Open(work, l.tf.Cfg.options())
@@ -450,6 +462,47 @@ func crashDuringRecovery(l *loaded, ic imgCase, scratch string, i int) (out []d2
 			return
 		}
 		defer st.Close()
+		if life2 {
+			defer func() {
+				r2 := rand.New(rand.NewPCG(ic.Seed^0x11fe2, uint64(ic.P)))
+				for k, nk := 0, 4+r2.IntN(8); k < nk; k++ {
+					ctx, cancel := context.WithTimeout(context.Background(), 20*time.Second)
+					tx, err := st.NewWriteOnlyTx(ctx)
+					if err != nil {
+						cancel()
+						return
+					}
+					var es []ledger.Entry
+					seen := map[string]bool{}
+					for n := 1 + r2.IntN(3); len(es) < n; {
+						key := fmt.Sprintf("k%02d", r2.IntN(6))
+						if seen[key] {
+							continue
+						}
+						seen[key] = true
+						v := make([]byte, []int{0, 3, 40, 200}[r2.IntN(4)])
+						for i := range v {
+							v[i] = byte('A' + r2.IntN(26))
+						}
+						es = append(es, ledger.Entry{Key: []byte(key), Value: v})
+						tx.Set(es[len(es)-1].Key, nil, v)
+					}
+					hdr, err := tx.Commit(ctx)
+					cancel()
+					if err != nil {
+						return
+					}
+					led2.Ack(hdr, es)
+					j.Mark("ack", hdr.ID, hdr.Alh())
+					switch r2.IntN(4) {
+					case 0, 1:
+						st.FlushIndexes(float32(r2.IntN(101)), false)
+					case 2:
+						st.FlushIndexes(0, true)
+					}
+				}
+			}()
+		}
 		if l.tf.Cfg.ExtAllow {
 			st.SetExternalCommitAllowance(true)
 		}
@@ -472,6 +525,82 @@ func crashDuringRecovery(l *loaded, ic imgCase, scratch string, i int) (out []d2
 	n2 := len(t2.Events)
 	if n2 == 0 {
 		return nil
+	}
+	if os.Getenv("VERIF_C03_FAITHFUL") != "" { // development aid: the journal replayed in full must give the directory as it is
+		chk := filepath.Join(scratch, fmt.Sprintf("img%d-faithful", i))
+		os.RemoveAll(chk)
+		if _, err := fsjournal.MaterializeOn(base, t2, n2, fsjournal.Model(0), rand.New(rand.NewPCG(1, 1)), chk); err == nil {
+			filepath.Walk(work, func(p string, fi os.FileInfo, err error) error {
+				if err != nil || fi.IsDir() {
+					return nil
+				}
+				rel, _ := filepath.Rel(work, p)
+				a, _ := os.ReadFile(p)
+				b, err2 := os.ReadFile(filepath.Join(chk, rel))
+				if err2 != nil {
+					fmt.Printf("FAITHFUL: %s missing in the replayed image\n", rel)
+				} else if !bytes.Equal(a, b) {
+					d := 0
+					for d < len(a) && d < len(b) && a[d] == b[d] {
+						d++
+					}
+					fmt.Printf("FAITHFUL: %s differs (real %d bytes, replayed %d bytes, first difference at %d)\n", rel, len(a), len(b), d)
+				}
+				return nil
+			})
+			filepath.Walk(chk, func(p string, fi os.FileInfo, err error) error {
+				if err != nil || fi.IsDir() {
+					return nil
+				}
+				rel, _ := filepath.Rel(chk, p)
+				if _, e := os.Stat(filepath.Join(work, rel)); e != nil {
+					fmt.Printf("FAITHFUL: %s exists only in the replayed image\n", rel)
+				}
+				return nil
+			})
+			fmt.Printf("FAITHFUL: compared life2=%v events=%d\n", life2, n2)
+		}
+		os.RemoveAll(chk)
+	}
+	// what the second-level images of a second life are judged against: everything acknowledged before the first
+	// crash point (it must have survived the first recovery, and must survive the second), what was issued before
+	// it, and the acknowledgements / issued ids of the second life at their positions in its own journal
+	var l2 *loaded
+	if life2 {
+		l2 = &loaded{tr: t2, tf: l.tf, recs: map[uint64]*ledger.Rec{}, issued: map[uint64]map[[32]byte]int{}}
+		for _, a := range l.acks {
+			if a.idx < ic.P {
+				l2.acks = append(l2.acks, ackMark{-1, a.id, a.alh})
+				l2.recs[a.id] = l.recs[a.id]
+			}
+		}
+		for id, m := range l.issued {
+			for alh, idx := range m {
+				if idx < ic.P {
+					if l2.issued[id] == nil {
+						l2.issued[id] = map[[32]byte]int{}
+					}
+					l2.issued[id][alh] = -1
+				}
+			}
+		}
+		for k, e := range t2.Events {
+			if e.Op != hook.OpMark {
+				continue
+			}
+			switch e.Kind {
+			case "issued":
+				if l2.issued[e.ID] == nil {
+					l2.issued[e.ID] = map[[32]byte]int{}
+				}
+				if _, ok := l2.issued[e.ID][e.Hash]; !ok {
+					l2.issued[e.ID][e.Hash] = k
+				}
+			case "ack":
+				l2.acks = append(l2.acks, ackMark{k, e.ID, e.Hash})
+				l2.recs[e.ID] = led2.Get(e.ID)
+			}
+		}
 	}
 	r := rand.New(rand.NewPCG(ic.Seed^0xd2, uint64(ic.P)))
 	pts := map[int]bool{}
@@ -504,7 +633,14 @@ func crashDuringRecovery(l *loaded, ic imgCase, scratch string, i int) (out []d2
 			continue
 		}
 		d := d2Result{P2: p2, Len2: n2, Model: m2, Info: info}
-		d.Problems, d.Branch, _, _ = recoverAndCheck(l, ic, dir)
+		if life2 {
+			ic2 := ic
+			ic2.P = p2
+			d.Problems, d.Branch, _, _ = recoverAndCheck(l2, ic2, dir)
+			d.Life2 = true
+		} else {
+			d.Problems, d.Branch, _, _ = recoverAndCheck(l, ic, dir)
+		}
 		os.RemoveAll(dir)
 		out = append(out, d)
 	}
@@ -638,7 +774,7 @@ func recoverAndCheck(l *loaded, ic imgCase, dir string) (ps []ledger.Problem, br
 				continue
 			}
 			if !store.VerifyDualProof(dual, src.id, n, src.alh, hdrs[n-1].Alh()) {
-				add("R4/consistency-proof-rejected", "a client trusting acknowledged state (%d,%x) cannot verify the recovered state %d", src.id, src.alh[:6], n)
+				add("R4/consistency-proof-rejected", "a client trusting acknowledged state (%d,%x) cannot verify the recovered state %d%s", src.id, src.alh[:6], n, dualDiag(dual, src, hdrs))
 			}
 		}
 	}
@@ -816,6 +952,12 @@ func replay(c *fw.Ctx) {
 		fmt.Printf("  problem %s: %s\n", p.Sig, p.Detail)
 		c.Violation(p.Sig, p.Detail, nil)
 	}
+	for _, d := range res.D2 {
+		for _, p := range d.Problems {
+			fmt.Printf("  second-level image (life2=%v, event %d of %d, model %s) problem %s: %s\n", d.Life2, d.P2, d.Len2, fsjournal.Model(d.Model), p.Sig, p.Detail)
+			c.Violation(p.Sig+"/second-level", p.Detail, nil)
+		}
+	}
 	if res.Err != "" {
 		c.Inconclusive(res.Err)
 	}
@@ -921,8 +1063,11 @@ func Run(c *fw.Ctx) {
 			}
 			for k, m := range models {
 				ic := imgCase{Trace: cf.Dir, P: p, Model: m, Seed: uint64(c.Seed)*7919 + uint64(k)}
-				if pr.IntN(12) == 0 {
-					ic.Deep2 = 4
+				if pr.IntN(10) == 0 {
+					ic.Deep2 = 5
+				}
+				if os.Getenv("VERIF_C03_ONLY_DEEP") != "" && ic.Deep2 == 0 { // development aid
+					continue
 				}
 				b, _ := json.Marshal(ic)
 				cases = append(cases, b)
@@ -985,10 +1130,19 @@ func Run(c *fw.Ctx) {
 			for _, d := range res.D2 {
 				c.Eval(1)
 				c.Count("images_during_recovery", 1)
-				c.Distinct(fmt.Sprintf("during-recovery/at=%s/%s/%s/after-%s", d.Info.KindAtP, fsjournal.Model(d.Model), d.Branch, fsjournal.Model(ic.Model)))
+				kind2, suffix := "during-recovery", "/crash-during-recovery"
+				if d.Life2 {
+					kind2, suffix = "second-life", "/crash-in-the-life-after-a-recovery"
+					c.Count("images_in_a_second_life", 1)
+				}
+				c.Distinct(fmt.Sprintf("%s/at=%s/%s/%s/after-%s", kind2, d.Info.KindAtP, fsjournal.Model(d.Model), d.Branch, fsjournal.Model(ic.Model)))
 				for _, p := range d.Problems {
-					c.Violation(p.Sig+"/crash-during-recovery", fmt.Sprintf("[%s; second crash at event %d of %d of the recovery's own journal (%s), model %s] %s", where, d.P2, d.Len2, d.Info.KindAtP, fsjournal.Model(d.Model), p.Detail),
-						map[string][]byte{"case.json": cases[rs.Index]})
+					files := map[string][]byte{"case.json": cases[rs.Index]}
+					if tb, err := os.ReadFile(filepath.Join(ic.Trace, "trace.gob")); err == nil && len(tb) < 64<<20 {
+						files["trace.gob"] = tb
+						files["ledger.gob"], _ = os.ReadFile(filepath.Join(ic.Trace, "ledger.gob"))
+					}
+					c.Violation(p.Sig+suffix, fmt.Sprintf("[%s; second crash at event %d of %d of the recovery's own journal (%s), model %s] %s", where, d.P2, d.Len2, d.Info.KindAtP, fsjournal.Model(d.Model), p.Detail), files)
 				}
 			}
 			for _, p := range res.Problems {
@@ -1019,4 +1173,35 @@ func firstLines(s string, n int) string {
 		out += string(line) + "\n"
 	}
 	return out
+}
+
+// dualDiag names the part of a rejected dual proof that does not verify (diagnosis only, part of the report).
+func dualDiag(p *store.DualProof, src ackMark, hdrs []*store.TxHeader) string {
+	if p == nil || p.SourceTxHeader == nil || p.TargetTxHeader == nil {
+		return " [proof or headers missing]"
+	}
+	sh, th := p.SourceTxHeader, p.TargetTxHeader
+	leaf := func(d [32]byte) [32]byte {
+		var b [33]byte
+		copy(b[1:], d[:])
+		return sha256.Sum256(b[:])
+	}
+	var out []string
+	if sh.Alh() != src.alh {
+		out = append(out, fmt.Sprintf("source header alh %x is not the acknowledged one", sh.Alh()))
+	}
+	if src.id < th.BlTxID && !ahtree.VerifyInclusion(p.InclusionProof, src.id, th.BlTxID, leaf(src.alh), th.BlRoot) {
+		out = append(out, fmt.Sprintf("inclusion of tx %d in the target tree of size %d", src.id, th.BlTxID))
+	}
+	if sh.BlTxID > 0 && !ahtree.VerifyConsistency(p.ConsistencyProof, sh.BlTxID, th.BlTxID, sh.BlRoot, th.BlRoot) {
+		out = append(out, fmt.Sprintf("consistency of trees %d -> %d", sh.BlTxID, th.BlTxID))
+	}
+	if th.BlTxID > 0 && !ahtree.VerifyLastInclusion(p.LastInclusionProof, th.BlTxID, leaf(p.TargetBlTxAlh), th.BlRoot) {
+		real := ""
+		if int(th.BlTxID) <= len(hdrs) && hdrs[th.BlTxID-1] != nil && hdrs[th.BlTxID-1].Alh() != p.TargetBlTxAlh {
+			real = fmt.Sprintf(" (TargetBlTxAlh %x is not alh of tx %d)", p.TargetBlTxAlh[:6], th.BlTxID)
+		}
+		out = append(out, fmt.Sprintf("last inclusion in the target tree of size %d%s", th.BlTxID, real))
+	}
+	return fmt.Sprintf(" [source BlTxID %d, target BlTxID %d; failing parts: %s]", sh.BlTxID, th.BlTxID, strings.Join(out, "; "))
 }
